@@ -113,3 +113,139 @@ package keeper
 //@ ensures only_that_binding: err == NoErr ==> (let s := ctxOf(old(raw), reqOf(old(raw), requestID).RequestContextId).ServiceName in let p := reqOf(old(raw), requestID).Provider in
 //@      raw == old(raw)[KBind(s, p) := raw[KBind(s, p)]] && bindFound(raw, s, p))
 //@ ensures error_changes_nothing: err != NoErr ==> raw == old(raw) && bal == old(bal) && supply == old(supply)
+
+//@ func (Keeper).GetExchangedPrice
+//@ props C07 C01 C06
+//@ requires has_price: len(pricingOf(raw, binding.ServiceName, binding.Provider).Price) >= 1
+//@ ensures [C07,C01] charged_price_is_the_fee: err == NoErr && pricingOf(raw, binding.ServiceName, binding.Provider).Price[0].Denom == baseDenom
+//@      ==> result0 == priceCoins(raw, ctxTime(ctx), consumer, binding.ServiceName, binding.Provider)
+
+// ---------------------------------------------------------------- request-context lifecycle (C09, C05, C10, C11)
+//@ func (Keeper).CheckAuthority
+//@ props C05 C09
+//@ ensures [C05] only_consumer: err == NoErr ==> ctxFound(raw, requestContextID) && addrEq(consumer, ctxOf(raw, requestContextID).Consumer)
+//@ ensures [C05] never_a_module_context: err == NoErr && checkModule ==> len(ctxOf(raw, requestContextID).ModuleName) == 0
+//@ ensures complete: ctxFound(raw, requestContextID) && addrEq(consumer, ctxOf(raw, requestContextID).Consumer) && (!checkModule || len(ctxOf(raw, requestContextID).ModuleName) == 0) ==> err == NoErr
+
+//@ func (Keeper).PauseRequestContext
+//@ props C09 C05
+//@ modifies raw
+//@ ensures [C09] only_repeated_running: err == NoErr ==> (let c := ctxOf(old(raw), requestContextID) in ctxFound(old(raw), requestContextID) && c.Repeated && c.State == RUNNING)
+//@ ensures [C05] module_context_needs_consumer: err == NoErr ==> (let c := ctxOf(old(raw), requestContextID) in len(c.ModuleName) > 0 ==> addrEq(consumer, c.Consumer))
+//@ ensures [C09] becomes_paused_nothing_else: err == NoErr ==> (let c := ctxOf(old(raw), requestContextID) in raw == old(raw)[KCtx(requestContextID) := enc_RequestContext(c[State := PAUSED])])
+//@ ensures error_changes_nothing: err != NoErr ==> raw == old(raw)
+
+//@ func (Keeper).StartRequestContext
+//@ props C09 C05 C10 C11
+//@ modifies raw
+//@ ensures [C09] only_paused: err == NoErr ==> ctxFound(old(raw), requestContextID) && ctxOf(old(raw), requestContextID).State == PAUSED
+//@ ensures [C05] module_context_needs_consumer: err == NoErr ==> (let c := ctxOf(old(raw), requestContextID) in len(c.ModuleName) > 0 ==> addrEq(consumer, c.Consumer))
+//@ ensures [C09,C10,C11] running_and_requeued_iff_nothing_pending: err == NoErr ==> (let c := ctxOf(old(raw), requestContextID) in
+//@      let r1 := old(raw)[KCtx(requestContextID) := enc_RequestContext(c[State := RUNNING])] in
+//@      raw == ((!hasExp(old(raw), requestContextID) && !hasNew(old(raw), requestContextID))
+//@               ? r1[KNewQ(ctxHeight(ctx), requestContextID) := idVal(requestContextID)][KNewH(requestContextID) := hVal(ctxHeight(ctx))] : r1))
+//@ ensures error_changes_nothing: err != NoErr ==> raw == old(raw)
+
+//@ func (Keeper).KillRequestContext
+//@ props C09 C05
+//@ modifies raw
+//@ ensures [C09] only_repeated: err == NoErr ==> ctxFound(old(raw), requestContextID) && ctxOf(old(raw), requestContextID).Repeated
+//@ ensures [C05] module_context_needs_consumer: err == NoErr ==> (let c := ctxOf(old(raw), requestContextID) in len(c.ModuleName) > 0 ==> addrEq(consumer, c.Consumer))
+//@ ensures [C09] becomes_completed_nothing_else: err == NoErr ==> (let c := ctxOf(old(raw), requestContextID) in raw == old(raw)[KCtx(requestContextID) := enc_RequestContext(c[State := COMPLETED])])
+//@ ensures error_changes_nothing: err != NoErr ==> raw == old(raw)
+
+//@ func (Keeper).UpdateRequestContext
+//@ props C09 C05 C10
+//@ modifies raw
+//@ requires [C09] stored_context_in_range: ctxFound(raw, requestContextID) ==> rng_RequestContext(ctxOf(raw, requestContextID))
+//@ requires validated: timeout >= 0
+//@ requires counter_fits_int64: ctxFound(raw, requestContextID) ==> ctxOf(raw, requestContextID).BatchCounter < 9223372036854775808
+//@ ensures [C09] never_a_completed_context: err == NoErr ==> ctxFound(old(raw), requestContextID) && ctxOf(old(raw), requestContextID).State != COMPLETED
+//@ ensures [C05] module_context_needs_consumer: err == NoErr ==> (let c := ctxOf(old(raw), requestContextID) in len(c.ModuleName) > 0 ==> addrEq(consumer, c.Consumer))
+//@ ensures [C09] only_that_record: err == NoErr ==> raw == old(raw)[KCtx(requestContextID) := raw[KCtx(requestContextID)]] && ctxFound(raw, requestContextID)
+//@ ensures [C09] identity_state_and_counter_unchanged: err == NoErr ==> (let c := ctxOf(old(raw), requestContextID) in let n := ctxOf(raw, requestContextID) in
+//@      sameIdentity(c, n) && n.State == c.State && n.BatchCounter == c.BatchCounter && n.BatchState == c.BatchState &&
+//@      n.BatchRequestCount == c.BatchRequestCount && n.BatchResponseCount == c.BatchResponseCount && n.BatchResponseThreshold == c.BatchResponseThreshold)
+//@ ensures [C10] frequency_not_below_timeout: err == NoErr ==> (let n := ctxOf(raw, requestContextID) in n.RepeatedFrequency >= n.Timeout)
+//@ ensures [C10] total_not_below_counter: err == NoErr ==> (let n := ctxOf(raw, requestContextID) in let c := ctxOf(old(raw), requestContextID) in
+//@      n.RepeatedTotal == c.RepeatedTotal || (n.RepeatedTotal == repeatedTotal && (repeatedTotal < 1 || repeatedTotal >= c.BatchCounter)))
+//@ ensures error_changes_nothing: err != NoErr ==> raw == old(raw)
+
+// ---------------------------------------------------------------- earned fees (C13, C01)
+//@ func (Keeper).GetEarnedFees
+//@ props C13 C17
+//@ loop 0 invariant pos_in_range: 0 <= iterator_pos && iterator_pos <= itCount(iterator_snap, iterator_pfx)
+//@ loop 0 invariant sum_so_far: forall d Str :: amt(fees, d) == sumIt(iterator_snap, iterator_pfx, iterator_pos, d)
+//@ ensures [C13] sum_of_own_records: forall d Str :: amt(fees, d) == pfxSum(raw, PEarned(provider), d)
+//@ ensures found == true
+
+//@ func (Keeper).DeleteEarnedFees
+//@ props C13
+//@ modifies raw
+//@ loop 0 invariant pos_in_range: 0 <= iterator_pos && iterator_pos <= itCount(iterator_snap, iterator_pfx)
+//@ loop 0 invariant cleared_so_far: forall k Key :: {raw[k]} raw[k] == ((inPfx(k, iterator_pfx) && iterator_snap[k] != bnil && itIdx(iterator_snap, iterator_pfx, k) < iterator_pos) ? bnil : iterator_snap[k])
+//@ ensures [C13] deletes_exactly_own_records: raw == clearPfx(old(raw), PEarned(provider))
+
+//@ func (Keeper).SetEarnedFees
+//@ props C13
+//@ modifies raw
+//@ loop 0 invariant seen: 0 <= iter && iter <= len(fees)
+//@ loop 0 invariant written_so_far: raw == wrEarned(old(raw), provider, fees, iter)
+//@ ensures [C13] one_record_per_coin: raw == wrEarned(old(raw), provider, fees, len(fees))
+
+//@ func (Keeper).SetOwnerEarnedFees
+//@ props C13
+//@ modifies raw
+//@ loop 0 invariant seen: 0 <= iter && iter <= len(fees)
+//@ loop 0 invariant written_so_far: raw == wrOwnerEarned(old(raw), owner, fees, iter)
+//@ ensures [C13] owner_record: raw == wrOwnerEarned(old(raw), owner, fees, len(fees))
+
+//@ func (Keeper).GetOwnerEarnedFees
+//@ props C13 C17
+//@ loop 0 invariant pos_in_range: 0 <= iterator_pos && iterator_pos <= itCount(iterator_snap, iterator_pfx)
+//@ loop 0 invariant sum_so_far: forall d Str :: amt(fees, d) == sumIt(iterator_snap, iterator_pfx, iterator_pos, d)
+//@ ensures [C13] sum_of_owner_record: forall d Str :: amt(fees, d) == pfxSum(raw, POwnerEarned(owner), d)
+//@ ensures found == true
+
+//@ func (Keeper).DeleteOwnerEarnedFees
+//@ props C13
+//@ modifies raw
+//@ loop 0 invariant pos_in_range: 0 <= iterator_pos && iterator_pos <= itCount(iterator_snap, iterator_pfx)
+//@ loop 0 invariant cleared_so_far: forall k Key :: {raw[k]} raw[k] == ((inPfx(k, iterator_pfx) && iterator_snap[k] != bnil && itIdx(iterator_snap, iterator_pfx, k) < iterator_pos) ? bnil : iterator_snap[k])
+//@ ensures [C13] deletes_exactly_owner_record: raw == clearPfx(old(raw), POwnerEarned(owner))
+
+//@ func (Keeper).AddEarnedFee
+//@ props C13 C02 C01
+//@ modifies raw, bal
+//@ requires fee_nonneg: forall i Int :: {fee[i]} 0 <= i && i < len(fee) ==> fee[i].Amount >= 0
+//@ loop 0 invariant seen: 0 <= iter && iter <= len(fee)
+//@ loop 0 invariant tax_so_far: forall d Str :: amt(taxCoins, d) == taxSum(fee, iter, d)
+//@ ensures [C02] tax_goes_to_the_collector: err == NoErr ==> (forall a Bytes, d Str :: {bal[a][d]} bal[a][d] ==
+//@      old(bal)[a][d] - (a == requestAcc ? taxSum(fee, len(fee), d) : 0) + (a == feeCollectorAcc ? taxSum(fee, len(fee), d) : 0))
+//@ witness c1 (Slice Coin) := coinsAdd(earnedFees, earnedFee)
+//@ witness c2 (Slice Coin) := coinsAdd(ownerEarnedFees, earnedFee)
+//@ ensures [C13,C02] provider_gets_fee_minus_tax: err == NoErr ==> (forall d Str :: {amt(c1, d)} amt(c1, d) == pfxSum(old(raw), PEarned(provider), d) + amt(fee, d) - taxSum(fee, len(fee), d))
+//@ ensures [C13] owner_gets_the_same_amount: err == NoErr ==> (forall d Str :: {amt(c2, d)} amt(c2, d) ==
+//@      pfxSum(wrEarned(old(raw), provider, c1, len(c1)), POwnerEarned(ownerOf(old(raw), provider)), d) + amt(fee, d) - taxSum(fee, len(fee), d))
+//@ ensures [C13] exactly_these_records_written: err == NoErr ==> raw == wrOwnerEarned(wrEarned(old(raw), provider, c1, len(c1)), ownerOf(old(raw), provider), c2, len(c2))
+//@ ensures error_changes_no_record: err != NoErr ==> raw == old(raw)
+
+//@ func (Keeper).WithdrawEarnedFees
+//@ props C13 C05 C01
+//@ modifies raw, bal
+//@ requires signer_address: len(owner) == 20
+//@ requires [C13] owner_total_covers_provider: forall d Str :: pfxSum(raw, POwnerEarned(owner), d) >= pfxSum(raw, PEarned(provider), d)
+//@ loop 0 invariant pos_in_range: 0 <= iterator_pos && iterator_pos <= itCount(iterator_snap, iterator_pfx)
+//@ loop 0 invariant snapshot: iterator_snap == old(raw) && iterator_pfx == POwnerProv(owner)
+//@ loop 0 invariant cleared_so_far: raw == clrProv(old(raw), iterator_snap, iterator_pfx, iterator_pos)
+//@ witness paid (Slice Coin) := withdrawFees
+//@ witness oe (Slice Coin) := ownerEarnedFees
+//@ ensures [C05] only_the_provider_owner: err == NoErr && len(provider) > 0 ==> addrEq(owner, ownerOf(old(raw), provider))
+//@ ensures [C13] pays_exactly_the_recorded_earnings: err == NoErr ==> (forall d Str :: amt(paid, d) ==
+//@      (len(provider) > 0 ? pfxSum(old(raw), PEarned(provider), d) : pfxSum(old(raw), POwnerEarned(owner), d)))
+//@ ensures [C13] to_the_owners_withdrawal_address: err == NoErr ==> bal == bankMove(old(bal), requestAcc, withdrawAddrOf(old(raw), owner), paid)
+//@ ensures [C13] provider_mode_resets_exactly_its_records: err == NoErr && len(provider) > 0 ==> (forall d Str :: {amt(oe, d)} amt(oe, d) == pfxSum(old(raw), POwnerEarned(owner), d)) &&
+//@      raw == (coinsEqual(paid, oe) ? clearPfx(clearPfx(old(raw), PEarned(provider)), POwnerEarned(owner))
+//@                                   : wrOwnerEarned(clearPfx(old(raw), PEarned(provider)), owner, coinsSub(oe, paid), len(coinsSub(oe, paid))))
+//@ ensures [C13] owner_mode_resets_all_its_providers: err == NoErr && len(provider) == 0 ==>
+//@      raw == clearPfx(clrProv(old(raw), old(raw), POwnerProv(owner), itCount(old(raw), POwnerProv(owner))), POwnerEarned(owner))
